@@ -93,6 +93,26 @@ theorem C10_array_digests_stable {α : Type} (dec : Cbor → Option α) (H : Byt
     ts.map (fun t => H (enc t.toCbor)) = cs.map (fun c => H (enc c)) := by
   rw [← C10_array_reemits dec cs ts h, List.map_map]; rfl
 
+/-- … and to the whole `IssuerNameSpaces` map (any number of namespaces, each with any number of
+items, in the received order of namespaces): accepting and re-emitting it gives back the received
+map. -/
+theorem C10_namespaces_reemit {α κ : Type} (dec : Cbor → Option α) (nss : List (κ × List Cbor))
+    (tss : List (κ × List (Tag24 α)))
+    (h : nss.mapM (fun kc => (kc.2.mapM (Tag24.fromCbor dec)).map (fun ts => (kc.1, ts))) = some tss) :
+    tss.map (fun kt => (kt.1, kt.2.map (·.toCbor))) = nss := by
+  induction nss generalizing tss with
+  | nil => simp at h; subst h; rfl
+  | cons kc nss ih =>
+    rw [List.mapM_cons] at h
+    cases hc : kc.2.mapM (Tag24.fromCbor dec) with
+    | none => simp [hc] at h
+    | some ts =>
+      cases hr : nss.mapM (fun kc => (kc.2.mapM (Tag24.fromCbor dec)).map (fun ts => (kc.1, ts))) with
+      | none => simp [hc, hr] at h
+      | some tr =>
+        simp [hc, hr] at h; subst h
+        simp [C10_array_reemits dec kc.2 ts hc, ih tr hr]
+
 /-- protected-header bytes, payload bytes, signature and every unprotected entry (hence the
 x5chain certificate bytes under label 33) are preserved by parse-then-emit -/
 theorem C10_cose_preserved (c : Cbor) (s : CoseSign1) (h : CoseSign1.fromCbor c = some s) : s.toCbor = c := by
